@@ -109,13 +109,17 @@ def decorate(rng, doc, draft):
             if isinstance(v0, Num):
                 v = Num(rng.choice(["0", "1", "5", "100", "-1"]))
             elif isinstance(v0, bool):
+                if k0 not in ("uniqueItems", "deprecated", "readOnly", "writeOnly"):
+                    continue        # a boolean *schema*: pointer-valued, see below
                 v = not v0
             elif isinstance(v0, str):
                 v = rng.choice(gs.TYPES)
             elif isinstance(v0, list) and all(isinstance(x, str) for x in v0):
                 v = ["zz"]
             else:
-                v = v0
+                # schema-, schema-list- and map-valued keywords: a second assignment decodes INTO the existing value
+                # (encoding/json), which the model's plain assignment does not reproduce
+                continue
             if rng.random() < 0.6:
                 o.kvs.insert(0, (kv, v))       # the variant comes first in the document
             else:
@@ -123,7 +127,9 @@ def decorate(rng, doc, draft):
             folded = True
         else:
             k = rng.choice(CASEFOLD)
-            if k.lower() in ("type", "items", "dependencies") and any(kk.lower() == k.lower() for kk in o.keys()):
+            if k.lower() not in ("minimum", "required", "enum", "const", "maxlength", "$ref") and any(kk.lower() == k.lower() for kk in o.keys()):
+                # next to its exact twin only scalar / list-valued keywords: a second assignment to a *Schema or map field decodes
+                # INTO the existing value (encoding/json), which the model's plain assignment does not reproduce
                 continue
             if o.get(k) is None:
                 v = {"Type": "string", "MINIMUM": Num("5"), "Properties": Obj([("a", False)]), "Required": ["zz"], "ENUM": [],
